@@ -360,12 +360,20 @@ impl Target {
                     }
                 };
 
+                // The constant describes the whole variable only when the whole
+                // variable is assigned, not one of its paths.
+                let value = if path.is_root() { value } else { None };
                 let details = Details { type_def, value };
                 state.local.insert_variable(ident.clone(), details);
             }
 
             Self::External(target_path) => match target_path.prefix {
                 PathPrefix::Event => {
+                    let value = if target_path.path.is_root() {
+                        value
+                    } else {
+                        None
+                    };
                     state.external.update_target(Details {
                         type_def: state
                             .external
